@@ -453,6 +453,9 @@ type Contract struct {
 	TracedArg  SExpr // traced callees: the key argument recorded in the caller's activation trace
 	TracedRes  SExpr // ... and the result recorded after the call
 	TracedRes2 SExpr // ... and a second result (e.g. the value produced)
+	TracedRes3 SExpr // ... and a third one
+	TracedOptIn bool   // traced only in activations whose contract lists the callee in a `traces` clause
+	Traces     []string // opt-in traced callees (key suffixes) recorded in this function's trace
 	AutoProps  []string // properties owning the generated safety obligations of this function (default: by package)
 	DefaultInv []Clause // invariants for every loop that has no explicit loop clause
 	PanicsOnlyWhen []Clause // may_panic functions: every explicit panic must be justified by one of these conditions
@@ -467,6 +470,7 @@ type Contract struct {
 type CallSiteClause struct {
 	Callee  string // suffix of the callee key (e.g. "reflect.Select")
 	Ordinal int    // -1: every call
+	Text    string // non-empty: only calls one of whose arguments is built from a string constant containing this text
 	Clause  Clause
 }
 
@@ -608,11 +612,18 @@ func loadSpecFile(path string, sf *SpecFile) error {
 				return fail(fmt.Errorf("props outside func"))
 			}
 			cur.Props = strings.Fields(rest)
-		case "traced":
-			// traced ARGEXPR [-> RESEXPR]
+		case "traces":
+			// traces CALLEE ...: this function's activation trace also records its calls to these opt-in traced callees
+			if cur == nil {
+				return fail(fmt.Errorf("traces outside func"))
+			}
+			cur.Traces = append(cur.Traces, strings.Fields(rest)...)
+		case "traced", "traced_optin":
+			// traced ARGEXPR [-> RESEXPR]; traced_optin: only in the traces of callers that name the callee in a `traces` clause
 			if cur == nil {
 				return fail(fmt.Errorf("traced outside func"))
 			}
+			cur.TracedOptIn = kw == "traced_optin"
 			parts := strings.SplitN(rest, "->", 2)
 			a, err := parseSpecExpr(strings.TrimSpace(parts[0]))
 			if err != nil {
@@ -620,18 +631,25 @@ func loadSpecFile(path string, sf *SpecFile) error {
 			}
 			cur.TracedArg = a
 			if len(parts) == 2 {
-				rs := strings.SplitN(parts[1], ";", 2)
+				rs := strings.SplitN(parts[1], ";", 3)
 				r, err := parseSpecExpr(strings.TrimSpace(rs[0]))
 				if err != nil {
 					return fail(err)
 				}
 				cur.TracedRes = r
-				if len(rs) == 2 {
+				if len(rs) >= 2 {
 					r2, err := parseSpecExpr(strings.TrimSpace(rs[1]))
 					if err != nil {
 						return fail(err)
 					}
 					cur.TracedRes2 = r2
+				}
+				if len(rs) == 3 {
+					r3, err := parseSpecExpr(strings.TrimSpace(rs[2]))
+					if err != nil {
+						return fail(err)
+					}
+					cur.TracedRes3 = r3
 				}
 			}
 		case "loops":
@@ -744,7 +762,11 @@ func loadSpecFile(path string, sf *SpecFile) error {
 				return fail(fmt.Errorf("callsite CALLEE ORDINAL expr"))
 			}
 			ord := -1
-			if f[1] != "*" {
+			text := ""
+			if strings.HasPrefix(f[1], "~") {
+				// ~some_words: the call whose arguments mention a string constant containing "some words"
+				text = strings.ReplaceAll(f[1][1:], "_", " ")
+			} else if f[1] != "*" {
 				k, err := strconv.Atoi(f[1])
 				if err != nil {
 					return fail(err)
@@ -756,7 +778,17 @@ func loadSpecFile(path string, sf *SpecFile) error {
 			if err != nil {
 				return fail(err)
 			}
-			cur.CallSites = append(cur.CallSites, CallSiteClause{Callee: f[0], Ordinal: ord, Clause: c})
+			cur.CallSites = append(cur.CallSites, CallSiteClause{Callee: f[0], Ordinal: ord, Text: text, Clause: c})
+		case "spawnsite":
+			// spawnsite [tags] label: expr   -- checked at every go statement of this function
+			if cur == nil {
+				return fail(fmt.Errorf("spawnsite outside func"))
+			}
+			c, err := parseClause(rest, cur.Props)
+			if err != nil {
+				return fail(err)
+			}
+			cur.CallSites = append(cur.CallSites, CallSiteClause{Callee: "go:", Ordinal: -1, Clause: c})
 		case "closure":
 			// closure NAME [tags] label: expr   -- checked where this function creates the closure NAME (e.g. funcExpr$1);
 			// the closure's free variables are in scope under their names, next to the creator's own state
